@@ -359,3 +359,37 @@ fn e2b_short_header_write_then_error() {
     }
     let _ = std::fs::remove_file(&p);
 }
+
+// E13 (C05; C01 "nothing panics except the documented misuse of a handle to an already deleted bucket"): a handle to a bucket
+// NESTED in a bucket that has been deleted is a handle to a deleted bucket.  Using it must be refused the documented way (panic);
+// it must never work on the freed pages: before the repair `b.delete_bucket("c")` answered Ok and freed c's page a second time,
+// the commit succeeded and the file's free list named a page twice.
+#[test]
+fn e13_stale_handle_below_a_deleted_bucket() {
+    let p = tmp("e13");
+    let db = OpenOptions::new().pagesize(1024).open(&p).unwrap();
+    {
+        let tx = db.tx(true).unwrap();
+        let a = tx.create_bucket("a").unwrap();
+        let b = a.create_bucket("b").unwrap();
+        let c = b.create_bucket("c").unwrap();
+        c.put("k", "v").unwrap();
+        tx.commit().unwrap();
+    }
+    let refused;
+    {
+        let tx = db.tx(true).unwrap();
+        let a = tx.get_bucket("a").unwrap();
+        let b = a.get_bucket("b").unwrap(); // handle taken before the ancestor goes away
+        tx.delete_bucket("a").unwrap();
+        let r = std::panic::catch_unwind(std::panic::AssertUnwindSafe(|| b.delete_bucket("c")));
+        refused = r.is_err();
+        drop(b);
+        drop(a);
+        tx.commit().unwrap();
+    }
+    let r = db.check();
+    let _ = std::fs::remove_file(&p);
+    r.expect("page accounted twice after a delete through a handle below a deleted bucket");
+    assert!(refused, "a handle below a deleted bucket was accepted instead of being refused as a deleted bucket");
+}
